@@ -12,7 +12,7 @@ C10_INV = ["GridExact", "ChargeGrid", "FoldSum", "LinkGroups", "LinkTotal", "Opt
            "FoldRows", "OptLine", "ChargeRows"]
 
 GRIDS_Q = [("0", "14", "0.1"), ("0", "14", "0.5"), ("2", "8", "0.25"), ("3", "9", "0.05"), ("0", "14", "1"), ("0", "3", "0.125"),
-           ("6", "7", "0.025")]
+           ("6", "7", "0.025"), ("3", "9", "0.15"), ("0", "14", "0.4")]
 GRIDS_T = GRIDS_Q + [("0", "14", "0.01"), ("2", "8", "0.2"), ("0", "7", "0.7"), ("0", "0.3", "0.1"), ("1", "13", "0.3"),
                      ("4", "4", "1"), ("0", "14", "0.05"), ("0.5", "12.5", "2")]
 WINDOWS_Q = [("0", "14", "1"), ("0", "14", "2"), ("2", "8", "0.5"), ("0.5", "13.5", "1"), ("0", "14", "3")]
